@@ -270,6 +270,67 @@ pub fn cmp_misc<const N: usize>(ctx: &mut Ctx) {
             }
         }
     }
+    // integer elements: `Hash::hash_slice` is specialised for them (one write per slice), so a
+    // layout-dependent chunking shows up only here
+    {
+        let mki = |start: usize, s: &[u32]| -> CircularBuffer<N, u32> {
+            let mut b = CircularBuffer::<N, u32>::new();
+            if N > 0 {
+                for _ in 0..start % N {
+                    b.push_back(9);
+                    b.pop_front();
+                }
+            }
+            for v in s {
+                b.push_back(*v);
+            }
+            b
+        };
+        for len in 0..=N {
+            let s: Vec<u32> = (0..len as u32).map(|x| x * 3 + 1).collect();
+            let reference = mki(0, &s);
+            let mut r1 = CallSeqHasher::default();
+            reference.hash(&mut r1);
+            let mut rd = DefaultHasher::new();
+            reference.hash(&mut rd);
+            for sa in 0..starts {
+                let a = mki(sa, &s);
+                let mut c1 = CallSeqHasher::default();
+                a.hash(&mut c1);
+                let mut d1 = DefaultHasher::new();
+                a.hash(&mut d1);
+                // the call sequence may legitimately differ from a per-element one, but it must not
+                // depend on the layout: compare the concatenated byte stream and the call boundaries
+                if c1 != r1 {
+                    viol(ctx, N, N, "hash_call_sequence_int", format!("equal u32 buffers {:?} (front slots 0 / {}) feed the hasher differently: {:?} vs {:?}", s, sa, r1.calls, c1.calls));
+                }
+                if d1.finish() != rd.finish() {
+                    viol(ctx, N, N, "hash_default_int", format!("equal u32 buffers {:?} (front slots 0 / {}) hash differently", s, sa));
+                }
+                let b8 = {
+                    let mut b = CircularBuffer::<N, u8>::new();
+                    if N > 0 {
+                        for _ in 0..sa {
+                            b.push_back(9);
+                            b.pop_front();
+                        }
+                    }
+                    for v in &s {
+                        b.push_back(*v as u8);
+                    }
+                    b
+                };
+                let b8r: CircularBuffer<N, u8> = s.iter().map(|v| *v as u8).collect();
+                let (mut h1, mut h2) = (CallSeqHasher::default(), CallSeqHasher::default());
+                b8.hash(&mut h1);
+                b8r.hash(&mut h2);
+                if h1 != h2 {
+                    viol(ctx, N, N, "hash_call_sequence_int", format!("equal u8 buffers {:?} (front slot {}) feed the hasher differently: {:?} vs {:?}", s, sa, h2.calls, h1.calls));
+                }
+                ctx.count("hash_pairs", 2);
+            }
+        }
+    }
     // heterogeneous: String vs &str
     let words = ["a", "b", "ab"];
     for sa in 0..starts {
